@@ -8,6 +8,7 @@ package api
 
 import (
 	"bytes"
+	"context"
 	"database/sql"
 	"encoding/json"
 	"fmt"
@@ -150,6 +151,13 @@ func (fx *c31Fixture) run(t c31Failer, c *c31Case) {
 	if err != nil {
 		t.Fatalf("HARNESS app.Test: %v", err)
 	}
+	// "without storing a partial import" must also hold later: rows a rejected
+	// import left behind in the ingest buffer would be written by the next
+	// flush (any later import, the age timer, shutdown). Force that flush now,
+	// before storage is inspected.
+	if ferr := fx.buf.FlushAll(context.Background()); ferr != nil {
+		verifkit.Class("post-request-flush-error")
+	}
 	all := duck.FindParquet(fx.root)
 	defer func() { _ = os.RemoveAll(filepath.Join(fx.root, dbName)) }()
 	prefix := filepath.Join(fx.root, dbName, meas) + string(os.PathSeparator)
@@ -162,7 +170,7 @@ func (fx *c31Fixture) run(t c31Failer, c *c31Case) {
 		fx.rejected++
 		verifkit.Class("outcome:rejected")
 		if len(all) != 0 {
-			t.Fatalf("VERIF-FAIL class=C31/partial-import status=%d body=%s but %d parquet files were stored\ncase: %s", status, body, len(all), c.describe())
+			t.Fatalf("VERIF-FAIL class=C31/partial-import status=%d body=%s but %d parquet files were stored (after the next flush): %v\ncase: %s", status, body, len(all), all, c.describe())
 		}
 		return
 	}
